@@ -67,8 +67,20 @@ def check(case):
             p = env.write_file(f'pre{i}.xml', xmlw.serialize(pre), d)
             env.add(p)
             store.add_resource(pre)
+        V0 = []
+        if b['pre']:
+            # history in one process: what is installed so far is read completely (restricted and default mode) BEFORE
+            # the document arrives - whatever the library remembers from these reads must not survive the add
+            rt0 = docgen.reltypes_of(b['resource'], *b['pre'])
+            for dm in (False, True):
+                v0, _ = compare(store, store.specs(), rt0, default_mode=dm)
+                V0 += [(k + ':before-add', m) for k, m in v0]
         p = env.write_file('doc.xml', xmlw.serialize(b['resource'], raw_text=b['raw_text']), d)
-        ok, err = runner.guarded(env.add, p)
+        if case.get('route') == 'memory':
+            # the other public entry point: lmf.load + wn.add_lexical_resource
+            ok, err = runner.guarded(lambda q: env.add_resource(wn.lmf.load(q, progress_handler=None)), p)
+        else:
+            ok, err = runner.guarded(env.add, p)
         if not ok:
             return {'v': [(f'add:raises:{err[0]}@{err[1]}', f'wn.add of a valid document raised {err}')],
                     'd': 'raise', 'nt': True}
@@ -82,7 +94,7 @@ def check(case):
             ok, err = runner.guarded(lx.describe)       # the summary of what was added (counts per part of speech)
             if not ok:
                 V3.append((f'describe:raises:{err[0]}', f'{lx.specifier()}.describe() raised {err}'))
-        return {'v': V + V2 + V3, 'd': dg + dg2, 'nt': True}
+        return {'v': V0 + V + V2 + V3, 'd': dg + dg2, 'nt': True}
     finally:
         wn._add.BATCH_SIZE = 1000
         env.drop_db(env.db_path().parent)
@@ -97,6 +109,8 @@ def space(tier, seed):
         if v != '1.0':
             cases += docgen.ext_feature_space(v, 1)
             cases += docgen.ext_feature_space(v, 1, flags=('annot',))
+            if v == '1.3':
+                cases += [dict(c, route='memory') for c in docgen.ext_feature_space(v, 1)]
             # two versions of the extension installed together (same form ids on the base entry)
             cases += [c for c in docgen.ext_feature_space(v, 1, flags=('annot', 'twinext')) if not c['delta'] or v == '1.3']
         cases += docgen.multi_space(v)
